@@ -2,7 +2,7 @@
    All statements are about the model ABI/Assignable.v and hold for arbitrarily nested specs. *)
 From Coq Require Import List NArith Ascii String Bool Lia.
 From PV Require Import Base.Bytes Base.Sexp ABI.Types ABI.Spec ABI.Layout ABI.Descr ABI.Assignable
-  Proofs.ABILayoutProof Proofs.ABIDescrProof.
+  Proofs.ABISpecProof Proofs.ABILayoutProof Proofs.ABIDescrProof.
 Import ListNotations.
 
 (* ------------------------------------------------------------------------------------------ *)
@@ -142,16 +142,6 @@ Proof. destruct t; simpl; intros H; try discriminate H; discriminate. Qed.
 (* ------------------------------------------------------------------------------------------ *)
 (* 5. main theorem                                                                             *)
 (* ------------------------------------------------------------------------------------------ *)
-Lemma array_branch_sound : forall a b (r : bool),
-    (kind_of a = KArray) ->
-    (forall eb, value_spec b = Some eb -> r = true ->
-                exists ea, value_spec a = Some ea /\ canon ea = canon eb) ->
-    match value_spec b with
-    | Some eb => if negb r then false else array_case a b
-    | None => fallback a b
-    end = true -> True.
-Proof. trivial. Qed.
-
 Theorem assignable_same_layout : forall a b, assignable a b = true -> canon a = canon b.
 Proof.
   induction a as [| | n | | | ea n IH | ea IH | nm tas IH | n | | k | k] using ty_ind'; intros b H.
@@ -213,3 +203,112 @@ Proof.
   - apply assignable_flat_sound; [right; reflexivity | exact H].
   - apply assignable_flat_sound; [right; reflexivity | exact H].
 Qed.
+
+(* ------------------------------------------------------------------------------------------ *)
+(* 6. consequences                                                                             *)
+(* ------------------------------------------------------------------------------------------ *)
+(* the bytes of an admitted argument are an encoding of the expected type, of the same value *)
+Theorem assignable_same_encoding : forall a b, assignable a b = true ->
+    is_dynamic a = is_dynamic b /\ static_len a = static_len b /\
+    forall v, val_has_type a v = val_has_type b v /\ arc4_encode a v = arc4_encode b v.
+Proof.
+  intros a b H. apply assignable_same_layout in H.
+  destruct (same_layout_same_descr a b H) as [Hd Hl].
+  split; [exact Hd|]. split; [exact Hl|]. intro v. split.
+  - apply same_layout_same_values; exact H.
+  - apply same_layout_same_encoding; exact H.
+Qed.
+
+Theorem same_layout_indistinguishable : forall a b : ty, canon a = canon b ->
+    is_dynamic a = is_dynamic b /\ static_len a = static_len b /\
+    forall v : val, val_has_type a v = val_has_type b v /\ arc4_encode a v = arc4_encode b v.
+Proof.
+  intros a b H. destruct (same_layout_same_descr a b H) as [Hd Hl].
+  split; [exact Hd|]. split; [exact Hl|]. intro v.
+  split; [apply same_layout_same_values | apply same_layout_same_encoding]; exact H.
+Qed.
+
+Theorem admitted_bytes_valid_for_target : forall (a b : ty) (v : val) (bs : bytes),
+    assignable a b = true -> arc4_encode a v = Some bs ->
+    arc4_encode b v = Some bs /\ val_has_type b v = true.
+Proof.
+  intros a b v bs H He. destruct (assignable_same_encoding a b H) as [_ [_ Hv]].
+  destruct (Hv v) as [Ht Henc]. split.
+  - rewrite <- Henc. exact He.
+  - rewrite <- Ht. exact (encode_typed a v bs He).
+Qed.
+
+(* contrapositive: a call / assignment between differently laid out types is rejected *)
+Theorem different_layout_rejected : forall a b, canon a <> canon b -> call_admits a b = false.
+Proof.
+  intros a b Hne. unfold call_admits. destruct (assignable a b) eqn:E; [|reflexivity].
+  exfalso. apply Hne. apply assignable_same_layout. exact E.
+Qed.
+
+(* every spec is assignable to itself *)
+Theorem assignable_refl : forall a, assignable a a = true.
+Proof.
+  assert (Hflat_byte : assignable_flat TByte TByte = true) by reflexivity.
+  induction a as [| | n | | | ea n IH | ea IH | nm tas IH | n | | k | k] using ty_ind'.
+  - reflexivity.
+  - reflexivity.
+  - cbn [assignable]. unfold assignable_flat, isinst. cbn [cls_of subclass subclass_fuel pyclass_eqb parent andb orb uint_size].
+    apply N.eqb_refl.
+  - reflexivity.
+  - reflexivity.
+  - cbn [assignable value_spec]. rewrite IH. cbn [negb]. unfold array_case, isinst.
+    cbn [cls_of subclass subclass_fuel pyclass_eqb parent andb orb length_static]. apply N.eqb_refl.
+  - cbn [assignable value_spec]. rewrite IH. reflexivity.
+  - cbn [assignable]. destruct nm as [i|].
+    + apply py_eq_refl.
+    + rewrite N.eqb_refl. cbn [negb].
+      induction IH as [|x r Hx _ IHr]; [reflexivity|]. rewrite Hx. exact IHr.
+  - cbn [assignable value_spec]. rewrite Hflat_byte. cbn [negb]. unfold array_case, isinst.
+    cbn [cls_of subclass subclass_fuel pyclass_eqb parent andb orb length_static]. apply N.eqb_refl.
+  - reflexivity.
+  - destruct k; reflexivity.
+  - destruct k; reflexivity.
+Qed.
+
+(* ---- transaction and reference specs ---- *)
+Lemma canon_txn_inv : forall t, canon t = LTxn -> exists k, t = TTxn k.
+Proof. destruct t; simpl; intro H; try discriminate H. eexists; reflexivity. Qed.
+
+Lemma canon_ref_inv : forall t k, canon t = LRef k -> t = TRef k.
+Proof. destruct t; simpl; intros k' H; try discriminate H. congruence. Qed.
+
+(* a transaction spec is accepted exactly where the same spec or the generic `txn` is expected *)
+Theorem assignable_txn_iff : forall k1 b,
+    assignable (TTxn k1) b = true <-> exists k2, b = TTxn k2 /\ (k2 = k1 \/ k2 = TxAny).
+Proof.
+  intros k1 b; split.
+  - intro H. destruct (canon_txn_inv b (eq_sym (assignable_same_layout _ _ H))) as [k2 ->].
+    exists k2; split; [reflexivity|].
+    destruct k1, k2; vm_compute in H; try discriminate H; auto.
+  - intros [k2 [-> [-> | ->]]]; [apply assignable_refl | destruct k1; reflexivity].
+Qed.
+
+Theorem assignable_to_txn : forall a k, assignable a (TTxn k) = true -> exists k1, a = TTxn k1.
+Proof. intros a k H. apply canon_txn_inv. apply (assignable_same_layout _ _ H). Qed.
+
+(* a reference spec is assignable to and from the identical spec only *)
+Theorem assignable_ref_iff : forall k b, assignable (TRef k) b = true <-> b = TRef k.
+Proof.
+  intros k b; split.
+  - intro H. apply canon_ref_inv. symmetry. apply (assignable_same_layout _ _ H).
+  - intros ->. apply assignable_refl.
+Qed.
+
+Theorem assignable_to_ref : forall a k, assignable a (TRef k) = true -> a = TRef k.
+Proof. intros a k H. apply canon_ref_inv. apply (assignable_same_layout _ _ H). Qed.
+
+Theorem reference_specs : forall (k : ref_kind) (b : ty),
+    (assignable (TRef k) b = true <-> b = TRef k) /\ (assignable b (TRef k) = true -> b = TRef k).
+Proof. intros k b. split; [apply assignable_ref_iff | apply assignable_to_ref]. Qed.
+
+(* the relation is directional (not symmetric): the documented asymmetries *)
+Lemma assignable_not_symmetric :
+  assignable TAddress (TStaticBytes 32) = true /\ assignable (TStaticBytes 32) TAddress = false /\
+  assignable TString TDynBytes = true /\ assignable TDynBytes TString = false /\
+  assignable (TTxn TxPay) (TTxn TxAny) = true /\ assignable (TTxn TxAny) (TTxn TxPay) = false.
+Proof. vm_compute. repeat split; reflexivity. Qed.
